@@ -31,6 +31,10 @@ DOCS = {
         '<svg x="2" y="1" width="20" height="20" viewBox="0 0 10 10"><circle cx="3" cy="3" r="2" fill-opacity="{o1}"/></svg>'
         '<polygon points="1,1 5,1 3,6" opacity="0.5" stroke="red" stroke-width="{s1}" fill="none"/><symbol><rect width="1" height="1"/></symbol>'
     ),
+    "styled": doc(
+        '<g style="fill:red;opacity:{o1}" stroke-width="{s1}"><rect x="1.5" y="2.25" width="6.5" height="4.125"/>'
+        '<path d="M1,1 L{x1},1.5 L3,3.25 Z" style="stroke:blue;fill-opacity:0.5"/></g><rect width="3.5" height="2.5" fill="green" style="display:inline"/>'
+    ),
     "pico": doc('<defs/><g opacity="0.5"><path d="M1.23456,1 L{x1},1.98765 L3,3.14159 Z" fill="red"/><path d="M2,2 L5,2 L4,6 Z"/></g><path d="M0,0 L1,0 L1,1 Z" opacity="{o1}"/>'),
 }
 
@@ -60,6 +64,9 @@ OPS = {
     "remove_title_meta_desc": (lambda s, ip: s.remove_title_meta_desc(inplace=ip), False),
     "set_attributes": (lambda s, ip: s.set_attributes((("data-x", "1"),), inplace=ip), False),
     "remove_attributes": (lambda s, ip: s.remove_attributes(("viewBox",), inplace=ip), False),
+    # an inheritable attribute set on non-shape elements only / the root's viewBox replaced
+    "set_attributes_group_fill": (lambda s, ip: s.set_attributes((("fill", "teal"),), xpath="//svg:g", inplace=ip), False),
+    "set_viewbox": (lambda s, ip: s.set_attributes((("viewBox", "0 0 4 4"),), inplace=ip), False),
     "normalize_opacity": (lambda s, ip: s.normalize_opacity(inplace=ip), False),
     "topicosvg": (lambda s, ip: s.topicosvg(inplace=ip), False),
     "clip_to_viewbox": (lambda s, ip: s.clip_to_viewbox(inplace=ip), False),
@@ -141,7 +148,8 @@ def make_harness(docname, history, op, inplace):
 
 def cases(tier, seed):
     cs = []
-    docs = ["basic", "pico"] if tier == "quick" else list(DOCS)
+    docs = ["basic", "pico", "styled"] if tier == "quick" else list(DOCS)
+    two_step = [[["view_box", True], ["set_viewbox", True]], [["shapes", True], ["set_attributes_group_fill", True]], [["shapes", True], ["set_viewbox", True]], [["bounding_box", True], ["remove_attributes", True]]]
     state_ops = ["shapes", "shapes_to_paths", "absolute", "expand_shorthand", "round_floats", "normalize_opacity", "evenodd_to_nonzero_winding", "remove_empty_subpaths", "apply_style_attributes"]
     for d in docs:
         for op in OPS:
@@ -153,6 +161,9 @@ def cases(tier, seed):
                 # one step from each cache state class (clean after a query / dirty after an in-place shape edit)
                 for s_op in state_ops:
                     cs.append({"doc": d, "history": [[s_op, True]], "op": op, "inplace": ip})
+                # a read (which may memoise) followed by an edit of what was read
+                for hist in two_step:
+                    cs.append({"doc": d, "history": hist, "op": op, "inplace": ip})
                 if tier != "quick":
                     for s1, s2 in itertools.product(state_ops[:5], state_ops[:6]):
                         cs.append({"doc": d, "history": [[s1, True], [s2, True]], "op": op, "inplace": ip})
